@@ -227,6 +227,45 @@ mod proofs {
         }
     }
 
+    // ---- sleep: shape of the retry loop (bounded: at most 4 nanosleep calls per invocation) -------
+    // Code-only part of "sleep(d) returns no earlier than d": Ok is returned only after a nanosleep
+    // call that did not fail; a call is repeated only after -EINTR and always with the same
+    // timespec passed as request *and* remainder (so the retry sleeps the time the kernel left);
+    // every other error is returned.  That the kernel writes the remaining time is assumed.
+    #[kani::proof]
+    #[kani::unwind(12)]
+    pub fn c19_sleep_retry_shape() {
+        use sc::kernel;
+        kernel::reset();
+        kernel::set_call_budget(4);
+        let (ds, _dn, d) = any_dur();
+        let r = tiny_std::thread::sleep(d);
+        let n = kernel::trace_len();
+        if ds > i64::MAX as u64 {
+            assert!(r.is_err() && n == 0, "sleep_rejects_unrepresentable_duration_without_a_call");
+            return;
+        }
+        assert!(n >= 1, "sleep_issues_nanosleep");
+        let eintr = (0isize - rusl::error::Errno::EINTR.raw() as isize) as usize;
+        let first = kernel::trace(0);
+        let mut i = 0;
+        while i < n {
+            let c = kernel::trace(i);
+            assert!(c.nr == sc::nr::NANOSLEEP, "sleep_only_calls_nanosleep");
+            assert!(c.args[0] == c.args[1] && c.args[0] == first.args[0], "sleep_retries_with_the_kernel_updated_timespec");
+            if i + 1 < n {
+                assert!(c.ret == eintr, "sleep_retries_only_after_EINTR");
+            }
+            i += 1;
+        }
+        let last = kernel::last().ret;
+        assert!(r.is_ok() == !kernel::is_err(last), "sleep_ok_only_after_a_successful_nanosleep");
+        if r.is_err() {
+            assert!(last != eintr, "sleep_does_not_surface_EINTR");
+        }
+        kani::cover!(n == 3 && r.is_ok(), "two interruptions then success");
+    }
+
     // ---- conformance of the Verus prelude's assumed Duration contract ----------------------------
     #[kani::proof]
     pub fn c19_duration_conformance() {
